@@ -11,7 +11,7 @@ c = Crate(path); os.remove(path)
 for name in sys.argv[1:]:
     for b in c.body_list:
         if name in b.path:
-            ev = Evaluator(c)
+            ev = Evaluator(c, inline_private_loops=bool(os.environ.get("TRANSPARENT")))
             t = ev.eval_entry(b)
             print('==', b.path, loc(b.raw))
             print('   term:', T.show(t)[:3000])
